@@ -211,6 +211,7 @@ def gen_scn(rng, sid, faults):
     for _ in range(nops):
         r0 = rng.random()
         flt = "N"
+        n0 = len(ops)
         if faults and rng.random() < faults:
             flt = rng.choice(["F", "F", "C"]) + str(rng.randint(1, 3))
         if r0 < 0.14:
@@ -282,7 +283,8 @@ def gen_scn(rng, sid, faults):
                     att.add(y)
             for r in roots:
                 root_attach(r, rng.choice(members))
-        if flt[0] == "C":
+        if any(o[0][0] == "C" for o in ops[n0:]):
+            # the server process died: every attachment is gone
             att = set()
             ras.clear()
     # the end: everybody attached where possible; the history and the log of every member read through the
